@@ -390,6 +390,53 @@ func (p *c20) held(rec *core.Recorder, e *twig.Engine, phase string) bool {
 	return true
 }
 
+// mapForms: x.key and x['key'] (and x[1] for the key "1") on every map shape give the value stored under that key, or nothing
+func (p *c20) mapForms(rec *core.Recorder, e *twig.Engine, phase string) bool {
+	base := map[string]string{"name": "v-name", "k": "v-k", "1": "v-one", "65": "v-65", "A": "v-A", "a b": "v-ab"}
+	mi, ms, mn, mx := map[string]interface{}{}, map[string]string{}, NamedMap{}, map[interface{}]interface{}{}
+	for k, v := range base {
+		mi[k], ms[k], mn[k], mx[k] = v, v, v, v
+	}
+	shapes := []struct {
+		label string
+		val   interface{}
+	}{{"map[string]interface{}", mi}, {"map[string]string", ms}, {"NamedMap", mn}, {"map[interface{}]interface{}", mx}, {"*map[string]interface{}", &mi}, {"*map[string]string", &ms}, {"*NamedMap", &mn}}
+	type form struct{ src, key string }
+	forms := []form{{"x.name", "name"}, {"x['name']", "name"}, {"x.k", "k"}, {"x[\"k\"]", "k"}, {"x['1']", "1"}, {"x[1]", "1"}, {"x[i]", "1"}, {"x[65]", "65"}, {"x['A']", "A"}, {"x.A", "A"}, {"x['a b']", "a b"},
+		{"x.missing", "missing"}, {"x['missing']", "missing"}, {"x[2]", "2"}, {"x[key]", "k"}, {"x[66]", "66"},
+		{"x['01']", "01"}, {"x['1.0']", "1.0"}, {"x['+1']", "+1"}, {"x['1e0']", "1e0"}, {"x[' 1']", " 1"}, {"x['065']", "065"}, {"x[k01]", "01"}, {"x['a']", "a"}, {"x['NAME']", "NAME"}, {"x.Name", "Name"}}
+	for _, sh := range shapes {
+		for _, f := range forms {
+			if sh.label == "map[interface{}]interface{}" && !strings.ContainsAny(f.src, "'\".") {
+				continue // in a map keyed by interface{} the number 1 and the string "1" are different keys
+			}
+			rec.Count("map-form-checks", 1)
+			src := "[{{ " + f.src + " }}]"
+			want := "[" + base[f.key] + "]"
+			var out string
+			var err error
+			panicked, site, val, stack := core.Guard(func() {
+				var t *twig.Template
+				t, err = e.ParseTemplate(src)
+				if err == nil {
+					out, err = t.Render(map[string]interface{}{"x": sh.val, "i": 1, "key": "k", "k01": "01"})
+				}
+			})
+			cs := map[string]any{"template": src, "go_type": sh.label, "phase": phase}
+			if panicked {
+				rec.Violate("panic", "panic@"+site, "engine panicked: "+val, cs, stack)
+				return false
+			}
+			if err != nil || out != want {
+				rec.Violate("reflection-reference", "wrong-map-entry:"+sh.label+":"+f.src,
+					fmt.Sprintf("%s on a %s printed %q (err=%v) in phase %q; the map holds %q under %q", src, sh.label, out, err, phase, base[f.key], f.key), cs, "")
+				return false
+			}
+		}
+	}
+	return true
+}
+
 func (p *c20) Run(rec *core.Recorder, seed uint64, idx int, tier string) {
 	r := core.NewRand("C20", seed, idx)
 	e := twig.New()
@@ -415,6 +462,9 @@ func (p *c20) Run(rec *core.Recorder, seed uint64, idx int, tier string) {
 		return
 	}
 	if !p.held(rec, e, "after the cold pass") {
+		return
+	}
+	if !p.mapForms(rec, e, "after the cold pass") {
 		return
 	}
 	var kept []c20Lookup
